@@ -405,13 +405,21 @@ def gen_simple(r, rooms_mode=1, big=False):
 TIMEOUTS = [0]
 
 
-def run_bin(binary, args, timeout=10, stdin=None):
+def _pin_one_cpu():
+    try:
+        os.sched_setaffinity(0, {sorted(os.sched_getaffinity(0))[0]})
+    except Exception:
+        pass
+
+
+def run_bin(binary, args, timeout=10, stdin=None, pin=False):
+    """`pin`: the process sees exactly one CPU (single-core host, container limited to one CPU)"""
     if TIMEOUTS[0] >= 3:
         # the binary hangs: do not spend the whole budget on watchdog expiries
         return None, "", "skipped after repeated timeouts", True
     try:
         p = subprocess.run([binary] + args, stdout=subprocess.PIPE, stderr=subprocess.PIPE, timeout=timeout,
-                           env=dict(os.environ, RUST_LOG="info"), input=stdin)
+                           env=dict(os.environ, RUST_LOG="info"), input=stdin, preexec_fn=_pin_one_cpu if pin else None)
         return p.returncode, p.stdout.decode("utf-8", "replace"), p.stderr.decode("utf-8", "replace"), False
     except subprocess.TimeoutExpired as e:
         TIMEOUTS[0] += 1
@@ -523,17 +531,17 @@ def lines_cdedb_read(cases, workdir, stream):
         feat = ["corrupt:" + str(c["corruption"])] if c["corruption"] else ["valid"]
         if "panic" in result:
             out.append(line("direct", ["C15", "C12"], ok=False, what="io::cdedb::read panicked: " + str(result["panic"])[:200], case=i, stream=stream))
-            out.append(line("corr", ["C12", "C11", "C13", "C15"], "CR", payload, "PANIC", case=i, stream=stream, feat=feat))
+            out.append(line("corr", ["C12", "C11", "C13", "C15", "C01", "C05"], "CR", payload, "PANIC", case=i, stream=stream, feat=feat))
             continue
         if "err" in result:
-            out.append(line("corr", ["C12", "C11", "C13", "C15"], "CR", payload, "ERR", case=i, stream=stream, feat=feat + ["refused"]))
+            out.append(line("corr", ["C12", "C11", "C13", "C15", "C01", "C05"], "CR", payload, "ERR", case=i, stream=stream, feat=feat + ["refused"]))
             if c["corruption"] is None:
                 out.append(line("direct", ["C12"], ok=False, what="a well-formed export was refused: " + result["err"][:200], case=i, stream=stream))
             continue
         ok = result["ok"]
         feat.append("ia" if c["opts"]["ia"] else "no-ia")
         feat.append("ic" if c["opts"]["ic"] else "no-ic")
-        out.append(line("corr", ["C12", "C11", "C13", "C15"], "CR", payload, json.dumps(ok, ensure_ascii=False), case=i, stream=stream, feat=feat))
+        out.append(line("corr", ["C12", "C11", "C13", "C15", "C01", "C05"], "CR", payload, json.dumps(ok, ensure_ascii=False), case=i, stream=stream, feat=feat))
         out.append(line("direct", ["C12"], ok=bool(result.get("index_ok")), what="index fields equal positions", case=i, stream=stream, nontrivial=False))
         if c["corruption"] and c["corruption"] not in ("tracks-missing-in-part?",):
             refusals = {"kind", "version", "version-old", "no-track-selected", "unknown-track"}
@@ -698,6 +706,14 @@ def stream_e2e_cde(seed, tier, workdir, stream):
         rooms = None
         if r.random() < 0.4:
             rooms = [r.choice([2, 3, 4, 5, 6, 8, 10, 20, 30]) for _ in range(r.randint(1, len(doc["courses"]) + 1))]
+        if i % 10 == 3:
+            # both room field options given, factor and offset clearly different, rooms that bind under
+            # the documented formula offset + factor * size (and would not with the two exchanged)
+            opts["rff"] = "room_factor"; opts["rof"] = "room_offset"
+            for c in doc["courses"].values():
+                c["fields"]["room_factor"] = r.choice([2, 2.5, 3])
+                c["fields"]["room_offset"] = r.choice([0, 0, 1])
+            rooms = [r.choice([6, 8, 10, 12]) for _ in range(len(doc["courses"]))]
         twin = None
         if i % 3 == 0:
             twin, edits = irrelevant_edits(r, doc, opts, info)
@@ -829,6 +845,8 @@ def stream_cli_simple(seed, tier, workdir, stream):
                 c["instructors"].append(c["instructors"][0])
         cases.append({"doc": doc, "rooms": rooms, "threads": r.choice([1, 1, 2, 4, None]), "print": r.random() < 0.8,
                       "stale": r.random() < 0.3, "output": r.random() < 0.9})
+        # the default worker count on a machine where the process sees a single CPU
+        cases[-1]["pin"] = cases[-1]["threads"] is None and r.random() < 0.6
     # very large instances: several hundred participants (f32 effects in the quality figures)
     for _ in range(scale(tier, 2, 8)):
         np_ = r.randint(340, 520)
@@ -900,11 +918,33 @@ def lines_cli_simple(cases, workdir, stream, binary):
             args.append(inp)
             if c["output"]:
                 args.append(outp)
-            rc, so, se, to = run_bin(binary, args)
+            rc, so, se, to = run_bin(binary, args, pin=bool(c.get("pin")))
             nofile = not os.path.exists(outp) or (c["stale"] and c["output"] and rc != 0)
             good = (not to) and rc in (0, 1) and "panicked" not in se and (rc == 0 or ("No feasible solution found" in se))
             out.append(line("direct", ["C10"], ok=good, what=f"exit {rc} timeout {to}; stderr tail: {se[-200:]}", case=i, stream=stream,
-                            feat=[f"exit={rc}", "rooms" if c["rooms"] is not None else "norooms"]))
+                            feat=[f"exit={rc}", "rooms" if c["rooms"] is not None else "norooms"] + (["default-threads-one-cpu"] if c.get("pin") else [])))
+            if c.get("pin") and not to:
+                # C03 / C02: the default worker count (here: of a one-CPU machine) gives the verdict of an
+                # explicit single worker, and the same score outside the class of the known finding F11
+                outp2 = os.path.join(d, "out1.json")
+                if os.path.exists(outp2):
+                    os.remove(outp2)
+                args2 = ["--num-threads", "1"] + [a for a in args if a not in ("--print",)]
+                args2 = [outp2 if a == outp else a for a in args2]
+                if not c["output"]:
+                    args2.append(outp2)
+                rc2, so2, se2, to2 = run_bin(binary, args2)
+                in_class = any((not co.get("fixed_course")) and any(c["doc"]["participants"][p]["choices"] for p in co["instructors"]) for co in c["doc"]["courses"])
+                same = (rc == rc2) and not to2
+                what = f"default worker count on one CPU: exit {rc}; --num-threads 1: exit {rc2}"
+                if same and rc == 0 and c["output"] and not in_class:
+                    try:
+                        s1 = json.load(open(outp))["quality"].get("solution_score"); s2 = json.load(open(outp2))["quality"].get("solution_score")
+                        same = s1 == s2
+                        what += f"; scores {s1} / {s2}"
+                    except Exception as e:
+                        same = False; what += f"; output unreadable: {e}"
+                out.append(line("direct", ["C03", "C02", "C10"], ok=same, what=what, case=i, stream=stream, feat=["default-vs-one-worker"]))
             if rc == 1:
                 wrote = c["output"] and os.path.exists(outp) and not c["stale"]
                 out.append(line("direct", ["C10"], ok=not wrote, what="exit status 1 but an output file was written", case=i, stream=stream, nontrivial=False))
